@@ -156,9 +156,18 @@ Lemma bytes_read_limited_bound : forall ce body decoded limit, 0 <= body -> 0 <=
   bytes_read_limited ce body decoded limit <= Z.max body limit.
 Proof. intros ce body decoded limit Hb Hl. unfold bytes_read_limited. destruct (String.eqb ce ""); lia. Qed.
 
+(* fourth session: by the limit alone, whatever the Content-Encoding (none included) and the size of the body *)
+Lemma bytes_read_limited_by_limit : forall ce body decoded limit, bytes_read_limited ce body decoded limit <= limit.
+Proof. intros. unfold bytes_read_limited. lia. Qed.
+(* the reader of the third session let a body without Content-Encoding through whole *)
+Lemma bytes_read_v3_plain_unbounded : forall limit, 0 <= limit -> exists body, limit < bytes_read_limited_v3 "" body body limit.
+Proof. intros limit H. exists (limit + 1). cbn. lia. Qed.
+
 (* ... so the oracle's allowance for a request is bounded by its wire size and the operator's limit alone *)
 Lemma served_kb_bound : forall ob, served_kb ob <= Z.max (ob_body_kb ob) (ob_limit_kb ob).
-Proof. intros ob. unfold served_kb. lia. Qed.
+Proof. intros ob. unfold served_kb, served_kb_v3. destruct (0 <? ob_limit_kb ob) eqn:E; [apply Z.ltb_lt in E|]; lia. Qed.
+Lemma served_kb_by_limit : forall ob, 0 < ob_limit_kb ob -> served_kb ob <= ob_limit_kb ob.
+Proof. intros ob H. unfold served_kb. apply Z.ltb_lt in H. rewrite H. lia. Qed.
 
 (* before the fix the routes read the decompressor itself: one Read with room for everything delivers everything,
    the same call through the limiter stops at the limit *)
